@@ -300,6 +300,9 @@ class FakeSnowflakeCursor:
             (affected_count,) = self._duck_conn.fetchall()[0]
             result_sql = SQL_DELETED_ROWS.substitute(count=affected_count)
 
+        elif cmd == "TRUNCATETABLE":
+            result_sql = SQL_SUCCESS
+
         elif cmd in ("TRANSACTION", "COMMIT", "ROLLBACK"):
             # begin, commit and rollback
             result_sql = result_sql or SQL_SUCCESS
